@@ -135,19 +135,31 @@ class Runner:
             return self._sdep
         cs = []
         for n in (2, 3):
-            for kinds, reads in D.graphs(n, 2 if n == 3 else None):
+            # n = 3: at most 2 read edges between variables; reads of the variable of integration do not count (3 edges in all)
+            for kinds, reads in D.graphs(n, 3 if n == 3 else None):
                 if 'C' in kinds or 'G' in kinds or 'S' not in kinds:
                     continue
+                nvar = sum(len([x for x in r_ if x != 't']) for r_ in reads)
+                if n == 3 and nvar > 2:
+                    continue
+                extra = n == 3 and nvar + sum(1 for r_ in reads if 't' in r_) > 2   # only inside the bound because t does not count
                 for place in D.placements(n):
-                    if self.lean and len(set(place)) > 1 and place != tuple(i % 2 for i in range(n)):
+                    if self.lean and len(set(place)) > 1 and (extra or place != tuple(i % 2 for i in range(n))):
                         continue  # quick: one component, or the alternating placement
                     for i in range(n):
                         if kinds[i] == 'S':
                             continue
-                        if not any(i in reads[k] for k in range(n) if k != i):
-                            continue  # nothing reads the marked variable: nothing can go stale
+                        unread = not any(i in reads[k] for k in range(n) if k != i)
                         for j in range(n):
                             if j != i and not value_depends_on(kinds, reads, j, i) and D.state_dependent(kinds, reads, j):
+                                if extra and self.lean:
+                                    cs.append((kinds, reads, place, (('home', i),), ('var', j), None, 0))
+                                    continue
+                                if unread:
+                                    # nothing reads the marked variable, so nothing can go stale: only the order of callback and
+                                    # dependency is at stake - one padded variant
+                                    cs.append((kinds, reads, place, (('home', i),), ('var', j), None, {'pad': 1}))
+                                    continue
                                 cs.append((kinds, reads, place, (('home', i),), ('var', j), None, 0))
                                 # the same with unrelated equations next to it (a constant, a computed constant, an algebraic variable
                                 # that only computeVariables has to compute), listed last and listed first
